@@ -3,15 +3,21 @@
    property oracles (Spec side).  Engine numbers are listed in tools/engines.py. *)
 From MV Require Import Base.Prelude Model.Topic Spec.SpecTopic Model.TopicOracle Model.EnginesV3 Model.EnginesV5 Model.RespQueue Model.RespOracle.
 From MV Require Model.Sink.   (* qualified: Sink.v has many short names *)
-From MV Require Model.Limiter.   (* qualified as well *)
+From MV Require Model.Limiter Model.LimiterOracle.   (* qualified as well *)
+From MV Require Model.EnginesHs.   (* qualified: imports both codec models *)
+
+From MV Require Model.IoEnv Model.TimerRt.   (* qualified: own queue/handler names *)
 
 Definition run (e : N) (c : list (list N)) : list (list N) :=
   match e with
   | 1 => run_topic c
   | 30 => run_respq c
+  | 36 => IoEnv.run_iostate c
+  | 37 => TimerRt.run_timerrt c
   | 31 => Sink.run_sink3 c
   | 32 => Sink.run_sink5 c
   | 35 => Limiter.run_limiter c
+  | 38 => EnginesHs.run_hs c
   | _ => if (10 <=? e) && (e <? 20) then run_v3 e c
          else if (20 <=? e) && (e <? 30) then run_v5 e c
          else [[98]]
@@ -23,6 +29,7 @@ Definition oracle (e : N) (c : list (list N)) (o : list (list N)) : list (list N
   match e with
   | 1 => oracle_topic c o
   | 30 => oracle_respq c o
+  | 35 => LimiterOracle.oracle_limiter c o
   | _ => if (10 <=? e) && (e <? 20) then oracle_v3 e c o
          else if (20 <=? e) && (e <? 30) then oracle_v5 e c o
          else [[98]]
